@@ -22,6 +22,7 @@ type c15Case struct {
 	DstKind string `json:"dst_kind"`
 	SrcMtx  bool   `json:"src_mutex,omitempty"`
 	DstMtx  bool   `json:"dst_mutex,omitempty"`
+	Deco    bool   `json:"decorated,omitempty"` // presentation settings, identifiers, an earlier error on both sides
 }
 
 var c15Forms = []string{"native", "alias", "ptr-alias", "ptr-native", "aliasS", "read-only", "zero", "freed", "nil", "int", "string", "condition", "nil-ptr-alias", "nil-ptr-native", "zero-alias"}
@@ -48,6 +49,10 @@ func c15Run(c *Ctx, cs c15Case, count bool) {
 	dstNative.Push(dstVals...)
 	if dstNative.Len() != cs.DstLen || src.Len() != cs.SrcLen {
 		return // not constructible (capacity smaller than requested length)
+	}
+	if cs.Deco {
+		decorate(src).SetErr(errCat).SetNegativeIndices(true).SetForwardIndices(true)
+		decorate(dstNative).SetFIFO(true)
 	}
 	if cs.SrcMtx {
 		src.SetMutex()
@@ -181,9 +186,9 @@ func c15Cases(c *Ctx) []c15Case {
 										if form != "native" && (dm != (1<<dl)-1) {
 											continue // nil patterns of the destination only with the native form
 										}
-										out = append(out, c15Case{sl, sm, sf, sc, "LIST", dl, dm, dc, form, "AND", false, false})
+										out = append(out, c15Case{sl, sm, sf, sc, "LIST", dl, dm, dc, form, "AND", false, false, false})
 										if dm == (1<<dl)-1 && sm == (1<<sl)-1 && (form == "native" || form == "alias" || form == "read-only" || form == "int") {
-											out = append(out, c15Case{sl, sm, sf, sc, "LIST", dl, dm, dc, form, "AND", true, true}, c15Case{sl, sm, sf, sc, "LIST", dl, dm, dc, form, "AND", true, false})
+											out = append(out, c15Case{sl, sm, sf, sc, "LIST", dl, dm, dc, form, "AND", true, true, false}, c15Case{sl, sm, sf, sc, "LIST", dl, dm, dc, form, "AND", true, false, false}, c15Case{sl, sm, sf, sc, "LIST", dl, dm, dc, form, "AND", false, true, true})
 										}
 									}
 								}
